@@ -1,6 +1,7 @@
 package main
 
 import (
+	"sort"
 	"strconv"
 	"strings"
 
@@ -48,7 +49,7 @@ func cloneCase(ac *authCase) *authCase {
 
 func genC03(c *Ctx) error {
 	c.ShardSize = 150
-	c.Notes["rule"] = "for valid signed two-argument requests (3 key types, single key and 2-of-2, four routes): every single-field tamper operator applied to every signed field (request id, chaincode, channel, both method arguments, nonce, signer keys) and to the function name: substitute one byte, truncate, extend, swap neighbouring fields, move 1..2 bytes across each boundary (class boundary_shift), change the nonce, re-target to the second deployed chaincode/channel with and without renaming the fields, deliver a request signed for chaincode tt on channel tt to another chaincode of the same channel (named vt, and named TT), replace / permute signer keys. The untampered request is included as control. Non-trivial: every tampered case."
+	c.Notes["rule"] = "for valid signed two-argument requests (3 key types, single key and 2-of-2, four routes): every single-field tamper operator applied to every signed field (request id, chaincode, channel, both method arguments, nonce, signer keys) and to the function name: substitute one byte, truncate, extend, swap neighbouring fields, move 1..2 bytes across each boundary (class boundary_shift), change the nonce, re-target to the second deployed chaincode/channel with and without renaming the fields, deliver a request signed for chaincode tt on channel tt to another chaincode of the same channel (named vt, and named TT), replace / permute signer keys (with and without their signatures). The untampered request is included as control. Non-trivial: every tampered case."
 	aw, err := newAuthWorld()
 	if err != nil {
 		return err
@@ -206,6 +207,19 @@ func genC03(c *Ctx) error {
 					ac.signers[0], ac.signers[1] = ac.signers[1], ac.signers[0]
 					ac.sigSyms[0], ac.sigSyms[1] = ac.sigSyms[1], ac.sigSyms[0]
 					emit(ac, "permute_keys")
+					// the key list alone re-ordered, the signatures left where they were: what was signed names the keys in the
+					// other order
+					for _, asc := range []bool{true, false} { // from a request naming the keys in ascending and in descending order
+						ordered := *acc
+						ordered.Members = append([]*User(nil), acc.Members...)
+						sort.Slice(ordered.Members, func(i, j int) bool { return (ordered.Members[i].Pub < ordered.Members[j].Pub) == asc })
+						aw.tag++
+						ac, _ = aw.c03Base("tt", route, &ordered, "a"+strconv.Itoa(aw.tag), "bb7")
+						lastBase = cloneCase(ac)
+						ac.Args[6], ac.Args[7] = ac.Args[7], ac.Args[6]
+						ac.signers[0], ac.signers[1] = ac.signers[1], ac.signers[0]
+						emit(ac, "permute_keys_only")
+					}
 				}
 			}
 		}
